@@ -71,6 +71,17 @@ Inductive sevent :=
 | SAdvWithdraw (h : N)
 | STick.
 
+Definition appkind_eqb (a b : option appkind) : bool :=
+  match a, b with
+  | None, None => true
+  | Some KPay, Some KPay => true
+  | Some KMock, Some KMock => true
+  | _, _ => false
+  end.
+Definition lparams_eqb (p q : lparams) : bool :=
+  bytes_eqb (lp_id p) (lp_id q) && nlist_eqb (lp_parts p) (lp_parts q) && (lp_cd p =? lp_cd q)
+  && appkind_eqb (lp_app p) (lp_app q) && Bool.eqb (lp_ledger p) (lp_ledger q).
+
 (* ---------- histories ---------- *)
 Definition newest (n : node) : option state := hd_error (n_hist n).
 Definition locks (s : state) (c : bytes) : bool :=
@@ -99,14 +110,11 @@ Definition suballoc_backed (nodes : bmap node) (s : state) (l : suballoc) : bool
          end
   | None => false
   end.
-(* a sub-channel id enters the locked list only once, when the sub-channel has just been created *)
-Definition fresh_lock_ok (nodes : bmap node) (roothist : list state) (cur s : state) (l : suballoc) : bool :=
-  locks cur (sa_id l)
-  || (forallb (fun r => negb (locks r (sa_id l))) roothist
-      && match bfind nodes (sa_id l) with Some n => (length (n_hist n) =? 1)%nat | None => false end).
-Definition root_succ_ok (nodes : bmap node) (roothist : list state) (cur s : state) : bool :=
-  forallb (fun l => suballoc_backed nodes s l && fresh_lock_ok nodes roothist cur s l)
-          (al_locked (st_alloc s)).
+(* a sub-channel enters the locked list while nothing is registered for it on the ledger *)
+Definition fresh_lock_ok (D : disputes) (cur : state) (l : suballoc) : bool :=
+  locks cur (sa_id l) || match bfind D (sa_id l) with None => true | Some _ => false end.
+Definition root_succ_ok (nodes : bmap node) (D : disputes) (cur s : state) : bool :=
+  forallb (fun l => suballoc_backed nodes s l && fresh_lock_ok D cur l) (al_locked (st_alloc s)).
 
 (* ---------- the trees handed to the ledger ---------- *)
 Definition signed (p : lparams) (s : state) : tx :=
@@ -178,7 +186,7 @@ Definition tick_ok (st : sstate) : bool := party_tick_ok st 0 && party_tick_ok s
 (* ---------- adversary guards ---------- *)
 Definition known_signed (nodes : bmap node) (p : lparams) (s : state) : bool :=
   match bfind nodes (st_id s) with
-  | Some n => bytes_eqb (lp_id p) (lp_id (n_params n)) && in_hist s (n_hist n)
+  | Some n => lparams_eqb p (n_params n) && in_hist s (n_hist n)
   | None => false
   end.
 
@@ -213,8 +221,7 @@ Definition sstep (st : sstate) (e : sevent) : option (sstate * option (lop * lou
           if state_ok p s && (st_ver s =? 0) && (length (al_locked (st_alloc s)) =? 0)%nat
              && (1 <=? lp_cd p) && (length (lp_parts p) =? 2)%nat
              && (if isroot
-                 then bytes_eqb (lp_id p) (rootid st) && (lp_cd p =? lp_cd (s_root st))
-                      && nlist_eqb (lp_parts p) (lp_parts (s_root st)) && lp_ledger p
+                 then lparams_eqb p (s_root st) && lp_ledger p
                       && nlist_eqb (al_assets (st_alloc s)) (s_assets st)
                       && agreement_ok (al_bals (st_alloc s)) (s_agree st)
                  else negb (lp_ledger p) && nlist_eqb (al_assets (st_alloc s)) (s_assets st))
@@ -232,7 +239,7 @@ Definition sstep (st : sstate) (e : sevent) : option (sstate * option (lop * lou
           | cur :: _ =>
               let isroot := bytes_eqb (st_id s) (rootid st) in
               if negb (n_frozen n) && funded st && good_succ (n_params n) cur s
-                 && (if isroot then root_succ_ok (pt_nodes P) (n_hist n) cur s
+                 && (if isroot then root_succ_ok (pt_nodes P) (l_disp (s_L st)) cur s
                      else (length (al_locked (st_alloc s)) =? 0)%nat)
               then Some (set_party st i
                            (upd_node P (st_id s) (mkNode (n_params n) (s :: n_hist n) false)), None)
